@@ -85,6 +85,9 @@ def run(ctx: Ctx):
         "classes, dataclass, attrs, pydantic, namedtuple, defaultdict, objects with non-code repr -> HasRepr; depth <= 4) x five operations x placements (assert, helper-function "
         "argument, module level, loop) x layouts (non-ASCII, tabs, no final newline) x {black, black missing, format-command}: after a create run the module is executed with "
         "snapshot := identity and every test must pass. C: real pytest sessions (create, then disable), which also cover externals-free import insertion for HasRepr. "
+        "D: nested values of the modelled types (None, bool, int incl. negative/big, str, bytes, list, tuple, dict, set, frozenset, Enum members, classes, dataclass, attrs, "
+        "namedtuple, defaultdict; depth <= 4): the tokens of the real value_to_token vs repr_toks of Model/PyRepr.v for the abstract value the harness builds with its own rules, "
+        "and what Python's parser reads from the generated code vs the model's parser. "
         "non-trivial = value of depth >= 2, or a string needing an escape, or a non-builtin type")
     proof_step(ctx)
     # A
@@ -126,6 +129,35 @@ def run(ctx: Ctx):
         elif o["rc2"] != 0:
             ctx.report("after a create session the tests fail with --inline-snapshot=disable", {"kind": "session", "source": p["source"], "after": o["after"], "output": o["tail2"]})
     ctx.coverage["oracle"]["session_pairs"] = len(sp)
+    # D: nested values: value_to_token vs Model/PyRepr.v (repr_toks), Python's parser vs the model's parser
+    from .. import pyrepr
+    from ..core import coq_eval_shards
+    nd = 700 if not ctx.thorough else 8000
+    objs = [pyrepr.gen_obj(ctx.rng) for _ in range(nd)]
+    terms, codes = [], []
+    for o in objs:
+        t, code = pyrepr.case_term(o)
+        terms.append(t)
+        codes.append(code)
+        ctx.count(("pyrepr", code), isinstance(o, (list, tuple, dict, set, frozenset)) or hasattr(o, "__dataclass_fields__") or hasattr(o, "_fields"))
+        ctx.dist("D.type=" + type(o).__name__)
+    badd = coq_eval_shards(ctx, "pyrepr", "Model.PyRepr Corr.PyReprCorr", "case", terms, "mismatches", chunk=350)
+    ctx.coverage["traces_validated_against_impl"] += len(terms)
+    ctx.coverage["correspondence"]["value_to_token_and_python_parser_vs_pyrepr_model"] = {"cases": len(terms), "mismatches": len(badd)}
+    for j in badd[:10]:
+        # is the disagreement itself a failing input of the property?  evaluate the generated code and compare
+        try:
+            ns = {"Color": pyrepr.Color, "DC": pyrepr.DC, "NT": pyrepr.NT, "AT": getattr(pyrepr, "AT", None), "defaultdict": pyrepr.defaultdict}
+            back = eval(codes[j], ns)
+            same = back == objs[j] and type(back) is type(objs[j])
+        except Exception as e:  # noqa
+            back, same = f"{type(e).__name__}: {e}", False
+        if not same:
+            ctx.report(f"the code generated for {objs[j]!r} is {codes[j].strip()!r}, which evaluates to {back!r}", {"kind": "pyrepr", "code": codes[j], "value": repr(objs[j])})
+        else:
+            ctx.report(f"Model/PyRepr.v and value_to_token / Python's parser differ on {objs[j]!r} -> {codes[j].strip()!r}", {"kind": "pyrepr", "code": codes[j], "value": repr(objs[j])},
+                       no_input=True, kind="correspondence")
+    ctx.sample({"pyrepr_value": repr(objs[0])[:200], "code": codes[0].strip()[:200]})
 
 
 def replay(ctx: Ctx, data):
